@@ -30,6 +30,9 @@ FORMER_GAP_KINDS = ["annassign", "chained_assign", "subscript_assign", "attr_ass
                     "if_inline_body", "while_inline_body", "with_stmt", "match_stmt", "class_def", "async_def", "decorator",
                     "while_else", "for_else", "for_over_list", "for_over_name", "try_finally", "try_except_else", "nonlocal_decl",
                     "nested_def"]
+# a second statement behind a line of the fixed set (the fix's patterns for imports / global declarations exclude `;`)
+EXTRA_UNSUPPORTED = {"semicolon_after_import": ["import os; mon.write(7)"], "semicolon_after_from_import": ["from math import sin; mon.write(7)"],
+                     "semicolon_after_global": ["global x; mon.write(7)"], "semicolon_after_pass": ["pass; mon.write(7)"]}
 CTX_CODE = {c: i for i, c in enumerate(D.CONTEXTS)}
 
 # what the hook may report for the lines of the fixed set (generated `allowed` leaves)
@@ -79,7 +82,9 @@ HEADER_SEEDS = ["if x > 1:", "if x>1 :", "if(x > 1):", "if :", "if  :", "if x:",
                 "from Reduino import target", "from Reduino.Core import pin_mode, digital_write", "from Reduino.Core import *",
                 "from Reduino.Sensors import Ultrasonic", "from Reduino.Sensors import Button", "from Reduino.Sensors import Potentiometer",
                 "from Reduino.Actuators import Servo", "from  Reduino.Actuators  import  Led", "from Reduino.Actuators import Led, Servo",
-                "from Reduino.Core import", "import Reduino", "from Reduino.Sensors import Led", "from Reduino.Utils import target"]
+                "from Reduino.Core import", "import Reduino", "from Reduino.Sensors import Led", "from Reduino.Utils import target",
+                "import os", "import os as o", "import os; x = 5", "import os;", "import ;", "from math import sin; x = 5", "from a;b import c",
+                "from math import (sin, cos)", "from math import", "import", "importx y", "from x import", "from  x  import  y , z"]
 
 
 def header_cases(rng, progs_lines, thorough):
@@ -285,10 +290,10 @@ def run(ctx: C.Ctx):
             continue
         k = rng.choice(spots)
         ind = lines[k][: len(lines[k]) - len(lines[k].lstrip())]
-        kind = rng.choice(FORMER_GAP_KINDS)
+        kind = rng.choice(FORMER_GAP_KINDS + sorted(EXTRA_UNSUPPORTED))
         if kind == "nested_def" and not ind:
             continue                                  # a def at column 0 is an ordinary function
-        probe = D.KINDS[D.KIND_IDS.index(kind)][1]
+        probe = EXTRA_UNSUPPORTED[kind] if kind in EXTRA_UNSUPPORTED else D.KINDS[D.KIND_IDS.index(kind)][1]
         inj.append((kind, len(ind), lines[:k] + [ind + pl for pl in probe] + lines[k:]))
     inj_res = C.run_impl("c07_impl.py", {"cases": [["trace", l] for _, _, l in inj]}, timeout=3000) if inj else []
     for (kind, depth, lines), r in zip(inj, inj_res):
@@ -297,7 +302,39 @@ def run(ctx: C.Ctx):
         nontrivial.add(("inject", kind, "\n".join(lines)))
         if not r.get("exc"):
             ctx.fail(f"a script containing the unsupported statement kind {kind} is accepted: the statement disappears from (or is mistranslated in) the firmware without a diagnostic",
-                     {"script": lines, "probe": D.KINDS[D.KIND_IDS.index(kind)][1]}, "rejected with an error", "accepted", key="unsupported-accepted:" + kind)
+                     {"script": lines, "probe": EXTRA_UNSUPPORTED.get(kind) or D.KINDS[D.KIND_IDS.index(kind)][1]}, "rejected with an error", "accepted", key="unsupported-accepted:" + kind)
+
+    # ---- oracle B3: an import statement in any form (plain, `as`, parenthesised on one line, parenthesised over several lines
+    # with or without comments - _import_end skips it as ONE statement) inserted at a random statement position changes nothing:
+    # same firmware as without it (no neighbouring statement is swallowed, nothing of the import reaches the sketch)
+    IMPORT_FORMS = [["import os"], ["import os as o, sys"], ["from math import sin, cos"], ["from math import (sin, cos)"],
+                    ["from math import (sin, cos)  # both"], ["from math import (", "    sin,", "    cos,", ")"],
+                    ["from math import (  # names", "        sin,  # one (1)", "", "        cos", "    )"],
+                    ["from Reduino.Core import (pin_mode,", "    digital_write)"]]
+    imp_cases = []
+    for _ in range(240 if thorough else 60):
+        if not accepted:
+            break
+        pi = rng.choice(accepted)
+        lines = list(base[pi][0])
+        spots = [k for k, l in enumerate(lines) if l.strip() and not l.lstrip().startswith("#")
+                 and not re.match(r"\s*(elif\b|else\s*:|except\b)", l)]
+        if not spots:
+            continue
+        k = rng.choice(spots)
+        ind = lines[k][: len(lines[k]) - len(lines[k].lstrip())]
+        form = rng.choice(IMPORT_FORMS)
+        imp_cases.append((pi, form, lines[:k] + [(ind + fl) if fl else fl for fl in form] + lines[k:]))
+    imp_res = C.run_impl("c07_impl.py", {"cases": [["trace", l] for _, _, l in imp_cases]}, timeout=3000) if imp_cases else []
+    for (pi, form, lines), r in zip(imp_cases, imp_res):
+        evaluations += 1
+        dist["formerly_excluded_now_generated"]["import form:" + form[0][:28]] = dist["formerly_excluded_now_generated"].get("import form:" + form[0][:28], 0) + 1
+        nontrivial.add(("import-form", "\n".join(lines)))
+        b = base[pi][1]
+        if r.get("exc") or r.get("cpp") != b.get("cpp"):
+            ctx.fail("an import statement inserted into an accepted script changes the firmware (or the script is rejected): imports have no meaning on the device and must not swallow or disturb a neighbouring statement",
+                     {"script": lines, "import": form}, {"exc": None, "firmware": _diff_hint(b.get("cpp"), r.get("cpp"), True)},
+                     {"exc": r.get("exc"), "firmware": _diff_hint(b.get("cpp"), r.get("cpp"), False)}, key="import-form")
 
     # ---- oracle C: the block structure of the FIRMWARE is Python's (every control header of the script once, every
     # numbered statement and every break/continue/return under the conditions and in the function/phase Python puts
